@@ -11,7 +11,7 @@ import (
 func init() {
 	register(&propInfo{
 		ID:          "C16",
-		Explanation: "Origin and site analysis of reverse calls: (R16.1) the reverse-client builder allocates, inside each invocation, the client object, its request queue and the proxy struct; the queue it makes is what it stores into the connection it was given, the client's exit signal is that connection's exit signal, the proxy it provides is the one placed (under the proxy type's key) into the context it returns, which derives from the context it was given; (R16.2) the builder is invoked only on the WebSocket upgrade path, once per connection, before the connection loop starts, and its context is what the loop runs under; (R16.3) a reverse call fails instead of blocking once the connection is gone: every enqueue watches the exit signal, every loop exit raises it and fails in-flight calls; (R16.4) the client-side handler for reverse calls takes its alias table from the client configuration; (R16.5) handlers run on their own goroutine, so a handler that makes a reverse call (whose response arrives as a later frame on the same connection) cannot deadlock the frame executor. (R16.7) the reverse client's request queue is unbuffered. (R16.8) the frame executor never blocks on something only a finishing handler releases; (R16.9) the accept arm answers reverse calls and notifications picked up while the connection goes away.",
+		Explanation: "Origin and site analysis of reverse calls: (R16.1) the reverse-client builder allocates, inside each invocation, the client object, its request queue and the proxy struct; the queue it makes is what it stores into the connection it was given, the client's exit signal is that connection's exit signal, the proxy it provides is the one placed (under the proxy type's key) into the context it returns, which derives from the context it was given; (R16.2) the builder is invoked only on the WebSocket upgrade path, once per connection, before the connection loop starts, and its context is what the loop runs under; (R16.3) a reverse call fails instead of blocking once the connection is gone: every enqueue watches the exit signal, every loop exit raises it and fails in-flight calls; (R16.4) the client-side handler for reverse calls takes its alias table from the client configuration; (R16.5) handlers run on their own goroutine, so a handler that makes a reverse call (whose response arrives as a later frame on the same connection) cannot deadlock the frame executor. (R16.7) the reverse client's request queue is unbuffered. (R16.8) the frame executor never blocks on something only a finishing handler releases; (R16.9) the accept arm answers reverse calls and notifications picked up while the connection goes away. (R16.10) every client-handler registration is appended.",
 		NotDecided:  "Affinity under real client populations (follows from per-invocation allocation, not explored), correlation/error/dispatch guarantees of reverse calls (the same client and dispatcher code as forward calls: C02, C09, C11, C12 apply).",
 		Assumptions: []string{"the reverse-client builder is the function literal stored into the server configuration's builder field (type func(context.Context, *conn) (context.Context, error))"},
 		Run:         runC16,
@@ -401,9 +401,10 @@ func (c *Ctx) handlerRegistrationsKept(rule string) {
 	p := c.P
 	n := 0
 	for _, fn := range p.Funcs {
-		if pkgOf(fn) != p.Root.Pkg || fn.Parent() == nil || len(fn.Params) != 1 {
+		if pkgOf(fn) != p.Root.Pkg || len(fn.Params) == 0 {
 			continue
 		}
+		// the option closure func(*Config), or a setter method of the configuration it delegates to
 		pt, ok := fn.Params[0].Type().(*types.Pointer)
 		if !ok || structOf(pt.Elem()) == nil {
 			continue
